@@ -76,7 +76,7 @@ ROOTS6 = ['act', 'bill', 'doc', 'statement', 'debateReport', 'judgment']
 ROOTS7 = ROOTS6 + ['debate']
 
 PLAIN = ['foo', 'bar', 'baz', 'the', 'quick', 'brown', 'fox', 'lorem', 'ipsum', 'x', 'y', '1', '2a', '(a)', '(i)',
-         '1.2.', 'A.', 'été', 'naïve', 'אבג', 'مرحبا', '日本', '\U0001F600', 'a-b', 'semi;colon', 'q?',
+         '1.2.', 'A.', 'été', 'naïve', 'אבג', 'مرحبا', '日本', '\U0001F600', 'a-b', 'semi;colon', 'q?', '\U00020BB7\u91ce', '\U00029E3D', 'x\U000E0101', '\U0010FFFD',
          '"q"', "it's", 'a<b', 'x&y', '&amp;', ']]>', '100%', "'", '"']
 
 class Words:
@@ -86,7 +86,7 @@ class Words:
     def word(self):
         if self.unique:
             self.k += 1
-            base = self.rng.choice(['w', 'tok', 'ש', 'م', 'é', '\U0001F600z', 'q'])
+            base = self.rng.choice(['w', 'tok', 'ש', 'م', 'é', '\U0001F600z', 'q', '\U00020BB7z', '\U000E0101z'])
             return '%s%dz' % (base, self.k)
         return self.rng.choice(PLAIN)
     def words(self, lo=1, hi=4):
@@ -124,7 +124,10 @@ def gen_inline(rng, W, depth=0):
         elif r < 0.81:
             parts.append('{{>' + rng.choice(['http://x.y/z', '#sec_1', '', 'http://x.y/a\u00a0b', '#a\u2009b']) + ' ' + gen_inline(rng, W, depth + 1) + '}}')
         elif r < 0.84:
-            parts.append('{{*' + gen_inline(rng, W, depth + 1) + '}}')
+            if rng.random() < 0.3:
+                parts.append('{{*' + gen_inline(rng, W, depth + 1) + '\x01' + gen_inline(rng, W, depth + 1) + '}}')     # a remark that spans lines
+            else:
+                parts.append('{{*' + gen_inline(rng, W, depth + 1) + '}}')
         elif r < 0.87:
             parts.append('{{IMG ' + rng.choice(['a.png', 'http://x/y.jpg', 'coat\u00a0of\u00a0arms.png']) + rng.choice(['', ' ' + W.words(1, 2)]) + '}}')
         elif r < 0.91:
@@ -171,12 +174,16 @@ def gen_block(rng, W, ind, depth, out, allow_hier=True):
         out.append(sp + rng.choice(['ITEMS', 'BLOCKLIST']) + gen_attrs(rng, W, 0.1))
         if rng.random() < 0.3:
             out.append(sp + '  ' + gen_inline(rng, W))
+            if rng.random() < 0.4:
+                out.append(sp + '  FOOTNOTE ' + rng.choice(['1', '2', '*', 'a'])); out.append(sp + '    ' + W.words(1, 3))
         for _ in range(rng.randint(1, 3)):
             out.append(sp + '  ITEM' + gen_heading(rng, W))
             if rng.random() < 0.85:
                 gen_blocks(rng, W, ind + 2, depth + 2, out, False, rng.randint(1, 2))
         if rng.random() < 0.2:
             out.append(sp + '  ' + gen_inline(rng, W))
+            if rng.random() < 0.4:
+                out.append(sp + '  FOOTNOTE ' + rng.choice(['1', '2', '*', 'a'])); out.append(sp + '    ' + W.words(1, 3))
     elif r < 0.70:
         out.append(sp + 'BULLETS' + gen_attrs(rng, W, 0.1))
         for _ in range(rng.randint(1, 3)):
@@ -219,7 +226,7 @@ def gen_speech(rng, W, ind, depth, out):
             gen_speech(rng, W, ind + 1, depth + 1, out)
     elif r < 0.6 and depth < 4:
         out.append(sp + rng.choice(SPEECH_GROUPS) + gen_attrs(rng, W, 0.1) + gen_heading(rng, W))
-        out.append(sp + '  FROM ' + gen_inline(rng, W))
+        out.append(sp + '  FROM ' + gen_inline(rng, W) + rng.choice(['', '', ':', ' #12:', ' (50% of the vote)', ' \u00e9\u0301']))
         for _ in range(rng.randint(1, 3)):
             gen_speech(rng, W, ind + 1, depth + 1, out)
     elif r < 0.7:
@@ -266,7 +273,13 @@ def gen_doc(rng, root, unique=False, size=None):
     if rng.random() < 0.3:
         for _ in range(rng.randint(1, 3)):
             gen_attachment(rng, W, 0, 0, out, root)
-    return '\n'.join(out) + '\n'
+    return '\n'.join(expand_breaks(l) for l in out) + '\n'
+
+def expand_breaks(l):
+    """\\x01 inside a generated line = line break + the indentation of that line"""
+    if '\x01' not in l: return l
+    ind = len(l) - len(l.lstrip(' '))
+    return l.replace('\x01', '\n' + ' ' * ind)
 
 def mutate(rng, text, n=None):
     lines = text.split('\n')
